@@ -28,7 +28,8 @@ def run(tier, acc):
     acc.violations += cc.records("C01", res, cs, {"bad"})
     res, cs = cc.drive(acc, "ladder", 10 if tier == "quick" else 100, 2, "ladder", CLEAN)
     acc.violations += cc.records("C01", res, cs, {"bad"})
-    acc.nontrivial = sum(v for k, v in acc.counts.items() if k.endswith("_ok"))
+    cc.exhaustive(acc, "C01", tier, CLEAN)
+    acc.nontrivial += sum(v for k, v in acc.counts.items() if k.endswith("_ok"))
 
 
 def replay(path):
